@@ -1,4 +1,6 @@
 import PeliteModel.Lemmas.Dirs
+import PeliteModel.Thm.C05Complete
+import PeliteModel.Lemmas.DirsExamples
 /-!
 C15 — Debug, TLS, load-config, exception and security directories are decoded as stored.
 
@@ -30,6 +32,11 @@ theorem C15_bsearch_contract (n : Nat) (cmp : Nat → Ordering) (hm : Mono n cmp
   refine ⟨⟨?_, ?_⟩, bsearchBy_found n cmp, bsearchBy_notFound n cmp hm⟩
   · rintro ⟨i, h⟩; exact ⟨i, bsearchBy_found n cmp i h⟩
   · rintro ⟨e, he, hc⟩; exact bsearchBy_complete n cmp hm e he hc
+
+/-- the hypothesis `Mono` holds for the closure of `index_of` on every table that passes `check_sorted`, e.g.
+the three records of `demoBytes` and any `pc` -/
+example (pc : Nat) : Mono (excCount ⟨320, 36, 4⟩) (rfCmp demoBytes ⟨320, 36, 4⟩ pc) :=
+  rfCmp_mono ((checkSorted_iff _ _).1 (by decide +kernel)) pc
 
 /-- The textbook search on `[0, n)` satisfies the same contract, hence on a monotone comparator the two
 agree on hit-or-miss and on the insertion point of a miss, and on the hit itself when at most one element
@@ -355,23 +362,84 @@ theorem C15_debug_data (v : View) (d : Nat) :
     dirData v d = (Spec.rawDataWindow v.kind v.b d).map (fun w => (⟨w.1, w.2, 1⟩ : Ref)) :=
   dirData_eq_spec v d
 
+/-- FILE view: the raw data of the entry is found through `PointerToRawData` (352), not `AddressOfRawData`
+(0x1000); the same bytes taken as a mapped view have no raw data for that entry (0x1000 + 22 is past the buffer). -/
+example :
+    demoFile32.kind = .file ∧ debugTryFrom demoFile32 = .ok ⟨376, 28, 4⟩ ∧
+    ddAddressOfRawData demoFileBytes 376 = 0x1000 ∧ ddPointerToRawData demoFileBytes 376 = 352 ∧
+    dirData demoFile32 376 = some ⟨352, 22, 1⟩ ∧ Spec.rawDataWindow .file demoFileBytes 376 = some (352, 22) ∧
+    dirData demoFileAsView 376 = none ∧
+    dirEntry demoFile32 376 = .ok (.codeView (.cv20 ⟨352, 16, 4⟩ ⟨368, 6, 1⟩)) ∧
+    pdbFileName demoFile32 ⟨376, 28, 4⟩ = some ⟨368, 6, 1⟩ := by
+  decide +kernel
+
 /-- A CodeView 2.0 record ("NB10", Offset, TimeDateStamp, Age, NUL-terminated path of `n` bytes) in a
 dword-aligned raw-data window decodes to the 16-byte header at the window start and the path including
-its NUL; the accessors read the documented offsets. -/
+its NUL; the accessors read the documented offsets: signature, age, TIMESTAMP (and Offset); there is no GUID. -/
 theorem C15_codeview_nb10 (v : View) (d : Nat) (data : Ref) (hd : dirData v d = some data)
     (hal : (v.img.base + data.off) % 4 = 0) (n : Nat) (h : Spec.IsNB10 v.b data.off data.len n) :
     ∃ cv, codeView v d = .ok cv ∧ cv = .cv20 ⟨data.off, 16, 4⟩ ⟨data.off + 16, n + 1, 1⟩ ∧
       cv.age v.b = Spec.nb10Age v.b data.off ∧ cv.format = ⟨data.off, 4, 1⟩ ∧
-      cv.name = ⟨data.off + 16, n + 1, 1⟩ :=
-  ⟨_, codeView_of_nb10 v d data hd hal n h, rfl, rfl, rfl, rfl⟩
+      cv.name = ⟨data.off + 16, n + 1, 1⟩ ∧
+      cv.timestamp v.b = some (Spec.nb10TimeDateStamp v.b data.off) ∧
+      cv.offset v.b = some (Spec.nb10Offset v.b data.off) ∧
+      cv.guidRef = none ∧ cv.cvSignature v.b = sigNB10 :=
+  ⟨_, codeView_of_nb10 v d data hd hal n h, rfl, rfl, rfl, rfl, rfl, rfl, rfl, sig_nb10 h.sig⟩
 
-/-- A CodeView 7.0 record ("RSDS", 16-byte GUID, Age, NUL-terminated path). -/
+/-- NB10 instances: the second debug entry of the PE32+ mapped view `demoView64` ("c.pdb") and the entry of the
+FILE view `demoFile32` ("d.pdb", reached through `PointerToRawData`); the theorem applied to them -/
+example : Spec.IsNB10 demoBytes64 392 22 5 :=
+  ⟨by decide +kernel, by decide, ⟨by decide, by decide +kernel, by decide +kernel⟩⟩
+
+example : Spec.IsNB10 demoFileBytes 352 22 5 :=
+  ⟨by decide +kernel, by decide, ⟨by decide, by decide +kernel, by decide +kernel⟩⟩
+
+example :
+    codeView demoView64 444 = .ok (.cv20 ⟨392, 16, 4⟩ ⟨408, 6, 1⟩) ∧
+    (CodeView.cv20 ⟨392, 16, 4⟩ ⟨408, 6, 1⟩).timestamp demoBytes64 = some 0x5F112233 ∧
+    (CodeView.cv20 ⟨392, 16, 4⟩ ⟨408, 6, 1⟩).age demoBytes64 = 3 ∧
+    codeView demoFile32 376 = .ok (.cv20 ⟨352, 16, 4⟩ ⟨368, 6, 1⟩) ∧
+    (CodeView.cv20 ⟨352, 16, 4⟩ ⟨368, 6, 1⟩).timestamp demoFileBytes = some 0x5F445566 ∧
+    (CodeView.cv20 ⟨352, 16, 4⟩ ⟨368, 6, 1⟩).age demoFileBytes = 4 := by
+  have h64 := C15_codeview_nb10 demoView64 444 ⟨392, 22, 1⟩ (by decide +kernel) (by decide) 5
+    ⟨by decide +kernel, by decide, ⟨by decide, by decide +kernel, by decide +kernel⟩⟩
+  have hf := C15_codeview_nb10 demoFile32 376 ⟨352, 22, 1⟩ (by decide +kernel) (by decide) 5
+    ⟨by decide +kernel, by decide, ⟨by decide, by decide +kernel, by decide +kernel⟩⟩
+  obtain ⟨cv, a1, rfl, _⟩ := h64
+  obtain ⟨cv', b1, rfl, _⟩ := hf
+  exact ⟨a1, by decide +kernel, by decide +kernel, b1, by decide +kernel, by decide +kernel⟩
+
+/-- A CodeView 7.0 record ("RSDS", 16-byte GUID, Age, NUL-terminated path): signature, age, the GUID — the
+16 bytes at +4 of the record, inside the buffer and dword aligned — and the path; there is no timestamp. -/
 theorem C15_codeview_rsds (v : View) (d : Nat) (data : Ref) (hd : dirData v d = some data)
     (hal : (v.img.base + data.off) % 4 = 0) (n : Nat) (h : Spec.IsRSDS v.b data.off data.len n) :
     ∃ cv, codeView v d = .ok cv ∧ cv = .cv70 ⟨data.off, 24, 4⟩ ⟨data.off + 24, n + 1, 1⟩ ∧
       cv.age v.b = Spec.rsdsAge v.b data.off ∧ cv.format = ⟨data.off, 4, 1⟩ ∧
-      cv.name = ⟨data.off + 24, n + 1, 1⟩ :=
-  ⟨_, codeView_of_rsds v d data hd hal n h, rfl, rfl, rfl, rfl⟩
+      cv.name = ⟨data.off + 24, n + 1, 1⟩ ∧
+      cv.guidRef = some (Spec.rsdsGuid data.off) ∧ RefOK v.img (Spec.rsdsGuid data.off) ∧
+      cv.timestamp v.b = none ∧ cv.offset v.b = none ∧ cv.cvSignature v.b = sigRSDS := by
+  refine ⟨_, codeView_of_rsds v d data hd hal n h, rfl, rfl, rfl, rfl, rfl, ?_, rfl, rfl, sig_rsds h.sig⟩
+  obtain ⟨hin, _⟩ := dirData_sound hd
+  have hfit := h.fits
+  unfold Spec.rsdsGuid RefOK
+  simp only
+  exact ⟨by omega, by omega⟩
+
+/-- RSDS instances: the first debug entry of the PE32 view `demoView` ("a.pdb") and of the PE32+ view `demoView64`
+("b.pdb"); the GUID is the 16 bytes 0x11 … 0x20 at 364 -/
+example : Spec.IsRSDS demoBytes64 360 30 5 :=
+  ⟨by decide +kernel, by decide, ⟨by decide, by decide +kernel, by decide +kernel⟩⟩
+
+example :
+    dirData demoView64 416 = some ⟨360, 30, 1⟩ ∧ (demoView64.img.base + 360) % 4 = 0 ∧
+    codeView demoView64 416 = .ok (.cv70 ⟨360, 24, 4⟩ ⟨384, 6, 1⟩) ∧
+    (CodeView.cv70 ⟨360, 24, 4⟩ ⟨384, 6, 1⟩).guidRef = some ⟨364, 16, 4⟩ ∧ Spec.rsdsGuid 360 = ⟨364, 16, 4⟩ ∧
+    (List.range 16).map (fun i => byteAt demoBytes64 (364 + i)) = (List.range 16).map (fun i => 0x11 + i) ∧
+    (CodeView.cv70 ⟨360, 24, 4⟩ ⟨384, 6, 1⟩).age demoBytes64 = 9 ∧
+    (CodeView.cv70 ⟨360, 24, 4⟩ ⟨384, 6, 1⟩).timestamp demoBytes64 = none ∧
+    codeView demoView 428 = .ok (.cv70 ⟨356, 24, 4⟩ ⟨380, 6, 1⟩) ∧
+    (CodeView.cv70 ⟨356, 24, 4⟩ ⟨380, 6, 1⟩).guidRef = some ⟨360, 16, 4⟩ := by
+  decide +kernel
 
 /-- Conversely whatever `code_view` returns IS such a record: the signature is "NB10" / "RSDS", the header
 is the first 16 / 24 bytes of the raw data and the name is the path up to and including its FIRST NUL,
@@ -438,6 +506,26 @@ theorem C15_codeview_sound (v : View) (d : Nat) (cv : CodeView) (h : codeView v 
           rw [← this]
       · rw [if_neg hrs] at h; cases h
 
+/-- The GUID / timestamp accessors of WHATEVER `code_view` returns (any bytes): a `Cv70` has the GUID at +4 of
+its header, inside the raw data, and no timestamp; a `Cv20` has the timestamp dword at +8 and no GUID. -/
+theorem C15_codeview_accessors (v : View) (d : Nat) (cv : CodeView) (h : codeView v d = .ok cv) :
+    cv.cvSignature v.b = le32 v.b cv.image.off ∧ cv.format = ⟨cv.image.off, 4, 1⟩ ∧
+    ((∃ i nm, cv = .cv20 i nm ∧ cv.cvSignature v.b = sigNB10 ∧ cv.guidRef = none ∧
+        cv.offset v.b = some (le32 v.b (i.off + 4)) ∧ cv.timestamp v.b = some (le32 v.b (i.off + 8)) ∧
+        cv.age v.b = le32 v.b (i.off + 12)) ∨
+     (∃ i nm, cv = .cv70 i nm ∧ cv.cvSignature v.b = sigRSDS ∧ cv.timestamp v.b = none ∧ cv.offset v.b = none ∧
+        cv.guidRef = some ⟨i.off + 4, 16, 4⟩ ∧ RefOK v.img ⟨i.off + 4, 16, 4⟩ ∧
+        cv.age v.b = le32 v.b (i.off + 20))) := by
+  refine ⟨rfl, rfl, ?_⟩
+  obtain ⟨data, hd, hal, hcases⟩ := C15_codeview_sound v d cv h
+  obtain ⟨hin, _⟩ := dirData_sound hd
+  rcases hcases with ⟨n, rfl, hsig, h16, _⟩ | ⟨n, rfl, hsig, h24, _⟩
+  · exact .inl ⟨_, _, rfl, hsig, rfl, rfl, rfl, rfl⟩
+  · refine .inr ⟨_, _, rfl, hsig, rfl, rfl, rfl, ?_, rfl⟩
+    unfold RefOK
+    simp only
+    exact ⟨by omega, by omega⟩
+
 /-- POGO data: records (rva, size, NUL-terminated name padded to a dword boundary) laid out back to back
 after the signature dword and filling the data up to less than one minimal record are yielded exactly,
 in order, with their names referenced in place. -/
@@ -445,7 +533,7 @@ theorem C15_pogo_records (b : Bytes) (image : Ref) (recs : List (Nat × Nat × N
     (h4 : 4 ≤ image.len) (hl : Spec.PogoLayout b (image.off + 4) recs stop)
     (h1 : stop ≤ image.off + 4 * (image.len / 4)) (h2 : image.off + 4 * (image.len / 4) < stop + 12) :
     pgoItems b image = .ok (Spec.pogoExpected (image.off + 4) recs) := by
-  unfold pgoItems pgoIterStart
+  unfold pgoItems pgoItemsFrom pgoIterStart
   simp only
   rw [if_pos (by omega)]
   simp only
@@ -584,6 +672,102 @@ theorem C15_tls_callbacks (v : View) (t : Ref) (s : Ref)
             · exact hall i (by omega))
     exact key 0 (Nat.zero_le _) (fun i hi => by omega)
 
+/-- Completeness of `callbacks`: the answer is DETERMINED by the bytes.  With `s` the readable bytes at virtual
+address `AddressOfCallBacks`: when the specification's list exists (a zero pointer among the whole pointers of
+`s`) the answer is exactly that list — `l.length` pointers at the start of `s`, whose values are `l` —; when it
+does not, `Bounds`; when the address does not resolve, the error of the resolution (`Null` for a zero address).
+So a decoder that gave up on a well-formed list (or returned a shorter / longer one) would contradict this. -/
+theorem C15_tls_callbacks_complete (v : View) (t : Ref) :
+    (∀ s, v.at (.va (tlsCallBacks v t)) 0 v.fmt.ptrSize = .ok s →
+      tlsCallbacks v t =
+        (match Spec.vaListUntilZero v.b s.off v.fmt.ptrSize (s.len / v.fmt.ptrSize) with
+         | some l => .ok ⟨s.off, l.length * v.fmt.ptrSize, v.fmt.ptrSize⟩
+         | none => .err .bounds) ∧
+      ∀ l, Spec.vaListUntilZero v.b s.off v.fmt.ptrSize (s.len / v.fmt.ptrSize) = some l →
+        l.length * v.fmt.ptrSize + v.fmt.ptrSize ≤ s.len ∧
+        l = (List.range l.length).map fun j => leN v.b (s.off + j * v.fmt.ptrSize) v.fmt.ptrSize) ∧
+    (∀ e, v.at (.va (tlsCallBacks v t)) 0 v.fmt.ptrSize = .err e → tlsCallbacks v t = .err e) ∧
+    (tlsCallBacks v t = 0 → tlsCallbacks v t = .err .null) := by
+  have hps : 1 ≤ v.fmt.ptrSize := by cases v.fmt <;> decide
+  refine ⟨fun s hat => ?_, fun e he => dervaSliceS_at_err v _ _ _ 0 e he, fun h0 => ?_⟩
+  · have key : ∀ l, Spec.vaListUntilZero v.b s.off v.fmt.ptrSize (s.len / v.fmt.ptrSize) = some l →
+        (l.length + 1) * v.fmt.ptrSize ≤ s.len ∧
+        leN v.b (s.off + l.length * v.fmt.ptrSize) v.fmt.ptrSize = 0 ∧
+        (∀ j, j < l.length → leN v.b (s.off + j * v.fmt.ptrSize) v.fmt.ptrSize ≠ 0) ∧
+        l = (List.range l.length).map fun j => leN v.b (s.off + j * v.fmt.ptrSize) v.fmt.ptrSize := by
+      intro l hl
+      obtain ⟨g1, g2, g3, g4⟩ := vaListUntilZero_some v.b v.fmt.ptrSize _ s.off l hl
+      exact ⟨(Nat.le_div_iff_mul_le (by omega)).1 g1, g2, g3, g4⟩
+    refine ⟨?_, fun l hl => ?_⟩
+    · cases hspec : Spec.vaListUntilZero v.b s.off v.fmt.ptrSize (s.len / v.fmt.ptrSize) with
+      | none => exact (C15_tls_callbacks v t s hat).2 hspec
+      | some l =>
+        obtain ⟨g1, g2, g3, _⟩ := key l hspec
+        exact (C05_derva_slice_s_complete v (.va (tlsCallBacks v t)) v.fmt.ptrSize v.fmt.ptrSize 0 hps s hat).1
+          l.length g1 g2 g3
+    · obtain ⟨g1, _, _, g4⟩ := key l hl
+      rw [Nat.succ_mul] at g1
+      exact ⟨g1, g4⟩
+  · unfold tlsCallbacks
+    rw [h0]
+    exact (C05_null_typed v v.fmt.ptrSize v.fmt.ptrSize 0 0).2.2.2.2.1.2
+
+/-- Instances of the hypothesis `v.at … = .ok s` of `C15_tls_callbacks` / `_complete`, with the specification's
+list: PE32 mapped (two 4-byte callbacks), PE32+ mapped (two 8-byte callbacks), PE32 FILE view (one callback, the
+VA resolved through the section table to file offset 408); and a PE32+ image whose `AddressOfCallBacks` points
+at the last 8 bytes of the image (non-zero): no zero pointer before the bytes end ⇒ `Bounds`. -/
+example :
+    demoView.at (.va (tlsCallBacks demoView ⟨504, 24, 4⟩)) 0 4 = .ok ⟨492, 124, 4⟩ ∧
+    Spec.vaListUntilZero demoBytes 492 4 (124 / 4) = some [0x400064, 0x400084] ∧
+    tlsCallbacks demoView ⟨504, 24, 4⟩ = .ok ⟨492, 2 * 4, 4⟩ ∧
+    tlsTryFrom demoView64 = .ok ⟨512, 40, 8⟩ ∧
+    demoView64.at (.va (tlsCallBacks demoView64 ⟨512, 40, 8⟩)) 0 8 = .ok ⟨488, 176, 8⟩ ∧
+    Spec.vaListUntilZero demoBytes64 488 8 (176 / 8) = some [0x140000064, 0x140000078] ∧
+    tlsCallbacks demoView64 ⟨512, 40, 8⟩ = .ok ⟨488, 2 * 8, 8⟩ ∧
+    tlsTryFrom demoFile32 = .ok ⟨416, 24, 4⟩ ∧
+    demoFile32.at (.va (tlsCallBacks demoFile32 ⟨416, 24, 4⟩)) 0 4 = .ok ⟨408, 72, 4⟩ ∧
+    Spec.vaListUntilZero demoFileBytes 408 4 (72 / 4) = some [0x401010] ∧
+    tlsCallbacks demoFile32 ⟨416, 24, 4⟩ = .ok ⟨408, 1 * 4, 4⟩ := by
+  decide +kernel
+
+example :
+    let v : View := ⟨⟨(demoBytes64.set! 536 0x90).set! 537 0x02, 0⟩, .pe64, .view, 0x140000000⟩
+    tlsTryFrom v = .ok ⟨512, 40, 8⟩ ∧ tlsCallBacks v ⟨512, 40, 8⟩ = 0x140000290 ∧
+    v.at (.va (tlsCallBacks v ⟨512, 40, 8⟩)) 0 8 = .ok ⟨656, 8, 8⟩ ∧
+    Spec.vaListUntilZero v.b 656 8 (8 / 8) = none ∧
+    tlsCallbacks v ⟨512, 40, 8⟩ = .err .bounds := by
+  decide +kernel
+
+/-- Absent directories: an image whose data-directory array is too short for the TLS (9) / load-config (10)
+slot — `NumberOfRvaAndSizes` (capped at 16) `≤` the slot — or whose slot holds RVA 0 reports `Null`. -/
+theorem C15_tls_lc_absent (v : View) :
+    (v.dataDir 9 = none → tlsTryFrom v = .err .null) ∧
+    (∀ size, v.dataDir 9 = some (0, size) → tlsTryFrom v = .err .null) ∧
+    (v.dataDir 10 = none → lcTryFrom v = .err .null) ∧
+    (∀ size, v.dataDir 10 = some (0, size) → lcTryFrom v = .err .null) ∧
+    (∀ i, v.dataDir i = none ↔ min (numberOfRvaAndSizes v.fmt v.b) 16 ≤ i) := by
+  unfold tlsTryFrom lcTryFrom
+  refine ⟨fun h => by rw [h], fun size h => ?_, fun h => by rw [h], fun size h => ?_, fun i => ?_⟩
+  · rw [h]; exact (C05_null_typed v _ _ 0 0).1.1
+  · rw [h]; exact (C05_null_typed v _ _ 0 0).1.1
+  · unfold View.dataDir numDataDirs
+    by_cases hi : i < min (numberOfRvaAndSizes v.fmt v.b) 16
+    · rw [if_pos hi]; constructor
+      · intro hh; cases hh
+      · intro hh; omega
+    · rw [if_neg hi]; exact ⟨fun _ => by omega, fun _ => rfl⟩
+
+/-- Instances: `demoBytes` with `NumberOfRvaAndSizes` lowered to 9 (the array ends before the TLS slot) — TLS and
+load config absent, the debug directory (slot 6) still there; `demoFile32` has sixteen slots with slot 10 all
+zero (RVA 0): load config absent. -/
+example :
+    let v : View := ⟨⟨demoBytes.set! 180 9, 0⟩, .pe32, .view, 0x400000⟩
+    Accept .pe32 v.img ∧ numberOfRvaAndSizes .pe32 v.b = 9 ∧ v.dataDir 9 = none ∧ v.dataDir 10 = none ∧
+    tlsTryFrom v = .err .null ∧ lcTryFrom v = .err .null ∧ debugTryFrom v = .ok ⟨428, 56, 4⟩ ∧
+    demoFile32.dataDir 10 = some (0, 0) ∧ lcTryFrom demoFile32 = .err .null ∧
+    excTryFrom demoFile32 = .err .null ∧ securityTryFrom demoFile32 = .err .null := by
+  decide +kernel
+
 /-- In a mapped view the three TLS pointers resolve to `pointer − image base`: the template is the
 `End − Start` bytes at buffer offset `Start − base`. -/
 theorem C15_tls_raw_data_mapped (v : View) (hk : v.kind = .view) (t : Ref)
@@ -598,6 +782,20 @@ theorem C15_tls_raw_data_mapped (v : View) (hk : v.kind = .view) (t : Ref)
   simp only
   rw [readSection_eq, if_neg (by omega), if_neg (by omega), if_pos isPow2_1, if_pos (Nat.mod_one _),
     if_pos ⟨by omega, by omega⟩]
+
+/-- hypotheses of `C15_tls_raw_data_mapped` on the PE32 and the PE32+ mapped view -/
+example :
+    demoView.kind = .view ∧ demoView.imageBase < tlsStart demoView ⟨504, 24, 4⟩ ∧
+    tlsStart demoView ⟨504, 24, 4⟩ ≤ tlsEnd demoView ⟨504, 24, 4⟩ ∧
+    tlsStart demoView ⟨504, 24, 4⟩ - demoView.imageBase ≤ sizeOfImage demoView.b ∧
+    tlsEnd demoView ⟨504, 24, 4⟩ - demoView.imageBase ≤ demoView.img.bytes.size ∧
+    demoView64.kind = .view ∧ demoView64.imageBase < tlsStart demoView64 ⟨512, 40, 8⟩ ∧
+    tlsStart demoView64 ⟨512, 40, 8⟩ ≤ tlsEnd demoView64 ⟨512, 40, 8⟩ ∧
+    tlsStart demoView64 ⟨512, 40, 8⟩ - demoView64.imageBase ≤ sizeOfImage demoView64.b ∧
+    tlsEnd demoView64 ⟨512, 40, 8⟩ - demoView64.imageBase ≤ demoView64.img.bytes.size ∧
+    tlsRawData demoView64 ⟨512, 40, 8⟩ = .ok ⟨472, 8, 1⟩ ∧ tlsSlot demoView64 ⟨512, 40, 8⟩ = .ok ⟨480, 4, 4⟩ ∧
+    tlsRawData demoFile32 ⟨416, 24, 4⟩ = .ok ⟨352, 4, 1⟩ ∧ tlsSlot demoFile32 ⟨416, 24, 4⟩ = .ok ⟨356, 4, 4⟩ := by
+  decide +kernel
 
 /-! ## load config directory -/
 
@@ -637,6 +835,19 @@ theorem C15_load_config_fields (v : View) (t : Ref) (r : Ref) :
   rw [dervaSlice_unfold]
   rw [if_pos h]
   simp [Addr.isZero]
+
+/-- PE32+ load config (112 bytes, align 8; cookie / table / count at +88 / +96 / +104) and exception directory -/
+example :
+    lcTryFrom demoView64 = .ok ⟨552, 112, 8⟩ ∧ lcDeclaredSize demoView64 ⟨552, 112, 8⟩ = 112 ∧
+    lcCookieVa demoView64 ⟨552, 112, 8⟩ = 0x1400001E0 ∧ lcCount demoView64 ⟨552, 112, 8⟩ = 2 ∧
+    lcSecurityCookie demoView64 ⟨552, 112, 8⟩ = .ok ⟨480, 4, 4⟩ ∧
+    lcSeHandlerTable demoView64 ⟨552, 112, 8⟩ = .ok ⟨488, 16, 8⟩ ∧
+    excTryFrom demoView64 = .ok ⟨336, 24, 4⟩ ∧ checkSorted demoBytes64 ⟨336, 24, 4⟩ = true ∧
+    indexOf demoBytes64 ⟨336, 24, 4⟩ 100 = .found 0 ∧ indexOf demoBytes64 ⟨336, 24, 4⟩ 118 = .notFound 1 ∧
+    fnBytes demoView64 ⟨336, 24, 4⟩ 1 = .ok ⟨120, 10, 1⟩ ∧ unwindInfo demoView64 ⟨336, 24, 4⟩ 0 = .ok ⟨328, 4, 1⟩ ∧
+    debugTryFrom demoView64 = .ok ⟨416, 56, 4⟩ ∧ pdbFileName demoView64 ⟨416, 56, 4⟩ = some ⟨384, 6, 1⟩ ∧
+    securityTryFrom demoView64 = .err .unmapped := by
+  decide +kernel
 
 /-! ## security directory -/
 
@@ -703,6 +914,26 @@ theorem C15_security_errors (v : View) (hk : v.kind = .file) :
     rw [if_pos (by omega)]
     simp only
     rw [if_neg (by omega)]
+
+/-- Absent directories, all five: no data-directory slot ⇒ `Null`; RVA 0 ⇒ `Null` (for the two record tables when the
+size passes the record-multiple check that comes first, for the certificate table in file views — mapped
+views answer `Unmapped` before looking, `C15_security_view`). -/
+theorem C15_absent_null (v : View) :
+    (v.dataDir 6 = none → debugTryFrom v = .err .null) ∧
+    (v.dataDir 3 = none → excTryFrom v = .err .null) ∧
+    (v.dataDir 9 = none → tlsTryFrom v = .err .null) ∧
+    (v.dataDir 10 = none → lcTryFrom v = .err .null) ∧
+    (v.kind = .file → v.dataDir 4 = none → securityTryFrom v = .err .null) ∧
+    (∀ size, v.dataDir 6 = some (0, size) → size % 28 = 0 → debugTryFrom v = .err .null) ∧
+    (∀ size, v.dataDir 3 = some (0, size) → size % 12 = 0 → excTryFrom v = .err .null) ∧
+    (∀ size, v.dataDir 9 = some (0, size) → tlsTryFrom v = .err .null) ∧
+    (∀ size, v.dataDir 10 = some (0, size) → lcTryFrom v = .err .null) ∧
+    (∀ size, v.kind = .file → v.dataDir 4 = some (0, size) → securityTryFrom v = .err .null) := by
+  obtain ⟨t1, t2, l1, l2, _⟩ := C15_tls_lc_absent v
+  exact ⟨(C15_debug_entries v).2.1, (C15_exception_entries v).2.1, t1, l1,
+    fun hk => (C15_security_errors v hk).1,
+    (C15_debug_entries v).2.2.2, (C15_exception_entries v).2.2.2, t2, l2,
+    fun size hk => (C15_security_errors v hk).2.1 size⟩
 
 /-! ## C01 / C02 / C03 for every decoder of the module: ANY view, ANY bytes -/
 
@@ -773,41 +1004,16 @@ theorem C15_constructed_views_aligned (k : Kind) (img : Img) (v : View) :
   · have := wrap_ok_imp k img v hw
     exact ⟨key _ this, key _ this⟩
 
-/-! ## non-vacuity: a 616-byte PE32 image (no sections) with all five directories
+/-! ## non-vacuity: a 616-byte PE32 image (no sections) with all five directories (`Lemmas/DirsExamples.lean`, where
+the PE32+ image `demoBytes64` and the one-section FILE image `demoFileBytes` used above are defined, too)
 
 exception table at 320 (records [100,116) with unwind info at 312, [116,116), [132,148)), CodeView RSDS
 record at 356 ("a.pdb"), POGO data at 388 (".text", ".rdata$zz"), debug directory at 428 (2 entries), TLS
 template / slot / callbacks at 484 / 488 / 492, TLS directory at 504, load config at 528, certificate at 600. -/
 
-def demoBytes : Bytes := #[
-    77, 90, 0, 0, 0, 0, 0, 0, 0, 0, 0, 0, 0, 0, 0, 0, 0, 0, 0, 0, 0, 0, 0, 0, 0, 0, 0, 0, 0, 0, 0, 0,
-    0, 0, 0, 0, 0, 0, 0, 0, 0, 0, 0, 0, 0, 0, 0, 0, 0, 0, 0, 0, 0, 0, 0, 0, 0, 0, 0, 0, 64, 0, 0, 0,
-    80, 69, 0, 0, 76, 1, 0, 0, 0, 0, 0, 95, 0, 0, 0, 0, 0, 0, 0, 0, 224, 0, 2, 33, 11, 1, 14, 0, 0, 2, 0, 0,
-    0, 2, 0, 0, 0, 0, 0, 0, 0, 16, 0, 0, 0, 16, 0, 0, 0, 32, 0, 0, 0, 0, 64, 0, 0, 16, 0, 0, 0, 2, 0, 0,
-    6, 0, 0, 0, 0, 0, 0, 0, 6, 0, 0, 0, 0, 0, 0, 0, 104, 2, 0, 0, 56, 1, 0, 0, 0, 0, 0, 0, 3, 0, 64, 129,
-    0, 0, 16, 0, 0, 16, 0, 0, 0, 0, 16, 0, 0, 16, 0, 0, 0, 0, 0, 0, 16, 0, 0, 0, 0, 0, 0, 0, 0, 0, 0, 0,
-    0, 0, 0, 0, 0, 0, 0, 0, 0, 0, 0, 0, 0, 0, 0, 0, 64, 1, 0, 0, 36, 0, 0, 0, 88, 2, 0, 0, 16, 0, 0, 0,
-    0, 0, 0, 0, 0, 0, 0, 0, 172, 1, 0, 0, 56, 0, 0, 0, 0, 0, 0, 0, 0, 0, 0, 0, 0, 0, 0, 0, 0, 0, 0, 0,
-    248, 1, 0, 0, 24, 0, 0, 0, 16, 2, 0, 0, 72, 0, 0, 0, 0, 0, 0, 0, 0, 0, 0, 0, 0, 0, 0, 0, 0, 0, 0, 0,
-    0, 0, 0, 0, 0, 0, 0, 0, 0, 0, 0, 0, 0, 0, 0, 0, 0, 0, 0, 0, 0, 0, 0, 0, 1, 2, 1, 0, 5, 66, 0, 0,
-    100, 0, 0, 0, 116, 0, 0, 0, 56, 1, 0, 0, 116, 0, 0, 0, 116, 0, 0, 0, 0, 0, 0, 0, 132, 0, 0, 0, 148, 0, 0, 0,
-    0, 0, 0, 0, 82, 83, 68, 83, 1, 2, 3, 4, 5, 6, 7, 8, 9, 10, 11, 12, 13, 14, 15, 16, 7, 0, 0, 0, 97, 46, 112, 100,
-    98, 0, 0, 0, 76, 84, 67, 71, 0, 16, 0, 0, 16, 0, 0, 0, 46, 116, 101, 120, 116, 0, 0, 0, 0, 32, 0, 0, 32, 0, 0, 0,
-    46, 114, 100, 97, 116, 97, 36, 122, 122, 0, 0, 0, 0, 0, 0, 0, 68, 51, 34, 17, 1, 0, 0, 0, 2, 0, 0, 0, 30, 0, 0, 0,
-    100, 1, 0, 0, 100, 1, 0, 0, 0, 0, 0, 0, 0, 0, 0, 0, 0, 0, 0, 0, 13, 0, 0, 0, 40, 0, 0, 0, 132, 1, 0, 0,
-    132, 1, 0, 0, 170, 187, 204, 221, 5, 0, 0, 0, 100, 0, 64, 0, 132, 0, 64, 0, 0, 0, 0, 0, 228, 1, 64, 0, 232, 1, 64, 0,
-    232, 1, 64, 0, 236, 1, 64, 0, 0, 0, 0, 0, 0, 0, 0, 0, 72, 0, 0, 0, 0, 0, 0, 0, 0, 0, 0, 0, 0, 0, 0, 0,
-    0, 0, 0, 0, 0, 0, 0, 0, 0, 0, 0, 0, 0, 0, 0, 0, 0, 0, 0, 0, 0, 0, 0, 0, 0, 0, 0, 0, 0, 0, 0, 0,
-    0, 0, 0, 0, 0, 0, 0, 0, 0, 0, 0, 0, 232, 1, 64, 0, 236, 1, 64, 0, 2, 0, 0, 0, 16, 0, 0, 0, 0, 2, 2, 0,
-    48, 130, 1, 2, 3, 4, 5, 6]
-
-def demoView : View := ⟨⟨demoBytes, 0⟩, .pe32, .view, 0x400000⟩
-def demoFile : View := ⟨⟨demoBytes, 0⟩, .pe32, .file, 0x400000⟩
-
-example : fromBytes .pe32 .view ⟨demoBytes, 0⟩ = .ok demoView ∧ fromBytes .pe32 .file ⟨demoBytes, 0⟩ = .ok demoFile := by
-  have hb : imageBaseField .pe32 demoBytes = 0x400000 := by decide +kernel
-  have ha : Accept .pe32 ⟨demoBytes, 0⟩ := by decide +kernel
-  exact ⟨(fromBytes_ok_iff _ _ _ _).2 ⟨ha, by rw [hb]; rfl⟩, (fromBytes_ok_iff _ _ _ _).2 ⟨ha, by rw [hb]; rfl⟩⟩
+example : fromBytes .pe32 .view ⟨demoBytes, 0⟩ = .ok demoView ∧ fromBytes .pe32 .file ⟨demoBytes, 0⟩ = .ok demoFile ∧
+    fromBytes .pe64 .view ⟨demoBytes64, 0⟩ = .ok demoView64 ∧ fromBytes .pe32 .file ⟨demoFileBytes, 0⟩ = .ok demoFile32 :=
+  ⟨demo_views_constructed.1, demo_views_constructed.2.1, demo_views_constructed.2.2.1, demo_views_constructed.2.2.2.1⟩
 
 /-- exception directory: three records, sorted (with an empty range in the middle); hits, the exclusive end,
 the gap, before the first and after the last; function bytes and unwind codes -/
